@@ -20,6 +20,10 @@ mkdir -p coq/gen work
   else
     rm -f _CoqProject.new
   fi
+  # every generated module first (the correspondence case files import generated modules that need not be in the
+  # dependency closure of the requested property: a stale .vo there gives "inconsistent assumptions")
+  timeout 3000 make -k -j"${VERIF_JOBS:-12}" COQC="timeout ${VERIF_COQC_TIMEOUT:-900} coqc" \
+      $(ls lib/*.v model/*.v gen/*.v | sed 's/\.v$/.vo/') > ../work/gen_build.log 2>&1
   if [ $# -eq 0 ]; then
     timeout 3000 make -k -j"${VERIF_JOBS:-12}" COQC="timeout ${VERIF_COQC_TIMEOUT:-900} coqc" 2>&1
   else
